@@ -575,6 +575,18 @@ async fn confirmed_lower(mon: &Monitor, h: &Hist, p: u32, lo_extra: Option<St>, 
     }
 }
 
+/// The engine stops its power iteration when one more round moves no score by more than 1e-4. A
+/// report can shift the round at which that happens, and with it every score by up to that much.
+/// A wrong-way move no larger than the solver's own tolerance is one finding of its own (recorded in
+/// known_findings.json), kept apart from the rule-specific signatures that larger moves are reported under.
+fn mono_sig(rule: &str, gap: f64) -> String {
+    if gap.abs() <= 1e-4 {
+        "monotone/report-moves-score-the-wrong-way/within-solver-tolerance(<=1e-4)".to_string()
+    } else {
+        rule.to_string()
+    }
+}
+
 fn score(map: &HashMap<NodeId, f64>, id: &NodeId) -> f64 {
     map.get(id).copied().unwrap_or(0.0)
 }
@@ -762,7 +774,7 @@ async fn run_history(mon: &Monitor, h: &Hist, rng: &mut Rng, idx: u64) {
         }
         let s_ok = got["success"];
         if s_ok < s0 - MONO_TOL && confirmed_lower(mon, h, p, Some(St::Correct), s_ok, None, s0).await {
-            mon.violation(&format!("monotone-success/{prior}"), detail("H + CorrectResponse(p) lowered p's score", s_ok, ("drop", s0 - s_ok)));
+            mon.violation(&mono_sig(&format!("monotone-success/{prior}"), s0 - s_ok), detail("H + CorrectResponse(p) lowered p's score", s_ok, ("drop", s0 - s_ok)));
         }
         if s_ok > s0 + MONO_TOL {
             mon.count("pairs.success_raised", 1);
@@ -777,7 +789,7 @@ async fn run_history(mon: &Monitor, h: &Hist, rng: &mut Rng, idx: u64) {
             }
             let s_f = got[name];
             if s_f > s0 + MONO_TOL && confirmed_lower(mon, h, p, None, s0, Some(st_of(name)), s_f).await {
-                mon.violation(&format!("monotone-failure/{name}/{prior}"), detail("H + failure report about p raised p's score", s_f, ("rise", s_f - s0)));
+                mon.violation(&mono_sig(&format!("monotone-failure/{name}/{prior}"), s_f - s0), detail("H + failure report about p raised p's score", s_f, ("rise", s_f - s0)));
             }
             if s_f < s0 - MONO_TOL {
                 mon.count("pairs.failure_lowered", 1);
@@ -791,7 +803,7 @@ async fn run_history(mon: &Monitor, h: &Hist, rng: &mut Rng, idx: u64) {
             }
             if got[name] > got["failure"] + MONO_TOL && confirmed_lower(mon, h, p, Some(St::Failed), got["failure"], Some(st_of(name)), got[name]).await {
                 mon.violation(
-                    &format!("severity/{name}-cheaper-than-failure/{prior}"),
+                    &mono_sig(&format!("severity/{name}-cheaper-than-failure/{prior}"), got[name] - got["failure"]),
                     detail("severe report left p with a higher score than a plain failure", got[name], ("score_with_plain_failure", got["failure"])),
                 );
             }
